@@ -81,6 +81,7 @@ func c03Run(rc *RunCtx) *Violation {
 	ask := [2]bool{}
 	prevKeys := [2][][]byte{} // sending AES keys of earlier sessions
 	prevSess := [2]int{-1, -1}
+	keystreams := [2]map[string]int{{}, {}}
 	curKey := [2][]byte{}
 	w.Observers = append(w.Observers, func(p *Party, r *CallResult) {
 		i := p.Idx
@@ -179,6 +180,14 @@ func c03Run(rc *RunCtx) *Violation {
 					return
 				}
 			}
+			// the same AES key with the same counter twice is a two-time pad: the texts are
+			// recoverable from the wire without any key
+			ks := fmt.Sprintf("%x/%d", mi.Keys.SendAES, mi.Ctr)
+			if prevCall, dup := keystreams[i][ks]; dup && prevCall != mi.Call {
+				viol = rc.Viol("keystream.reuse", fmt.Sprintf("%s encrypted two data messages (calls #%d and #%d) with the same AES key and the same counter %d", p.Name, prevCall, mi.Call, mi.Ctr), nil)
+				return
+			}
+			keystreams[i][ks] = mi.Call
 			if bytes.Contains(mi.Data.Enc, mi.Text) {
 				viol = rc.Viol("leak", fmt.Sprintf("%s: 'ciphertext' contains the text verbatim", p.Name), map[string]string{"how": "ciphertext"})
 				return
